@@ -48,7 +48,7 @@ CHECKS = {
    note="Trusts the generator and the overlay reference (gen/multi.go).",
    technique="runtime monitoring: reference-model oracle (newest-wins overlay) over real merged iterators on generated table sets"),
  "C07": dict(level="exploration", design="5/C07",
-   text="Model-driven single-handle histories (creates, updates, deletes, symrefs, peeled tags, log appends, log tombstones, varied table sizes) with auto-compaction, CompactAll, AutoCompact and reopen; after every call the handle's full ref+log scan must equal the reference model, a fresh handle every 5 calls. The harness tracks which tables were merged, so the evidence counts compactions of upper ranges holding a tombstone for a key that lives in a lower table. Also: the capacity-window family (records at the capacity of a block that become the first record of the compacted table) and, under the engine's commit monitor, compactions whose filesystem calls - reads of the input tables included, long log sections - fail once each: a compaction fails or commits exactly the content of its inputs. Also under the engine-A scheduler (M-commit: a compaction's commit leaves the view unchanged): two handles compacting explicitly chosen disjoint / nested / overlapping ranges and CompactAll / AutoCompact / expiry compactions parked before each of their filesystem operations while the other handle compacts and adds; I/O-fault sweeps over compaction inputs.",
+   text="Model-driven single-handle histories (creates, updates, deletes, symrefs, peeled tags, log appends, log tombstones, varied table sizes) with auto-compaction, CompactAll, AutoCompact and reopen; after every call the handle's full ref+log scan must equal the reference model, a fresh handle every 5 calls. The harness tracks which tables were merged, so the evidence counts compactions of upper ranges holding a tombstone for a key that lives in a lower table. Also: the capacity-window family (records at the capacity of a block that become the first record of the compacted table) and, under the engine's commit monitor, compactions whose filesystem calls - reads of the input tables included, long log sections - fail once each: a compaction fails or commits exactly the content of its inputs. Also under the engine-A scheduler (M-commit: a compaction's commit leaves the view unchanged): two handles compacting explicitly chosen disjoint / nested / overlapping ranges and CompactAll / AutoCompact / expiry compactions parked before each of their filesystem operations while the other handle compacts and adds; I/O-fault sweeps over compaction inputs. Also section-mix layouts: stacks built table by table so that log-only / ref-only tables lie beneath compacted ranges holding their tombstones, every upper range compacted in turn; and CompactAll with an expiry configuration that expires nothing (rewrites single-table stacks).",
    note="Trusts the reference stack model (gen/txn.go). Which range gets compacted is decided by the code under test; ranges are steered only through table sizes.",
    technique="runtime monitoring: reference-model oracle over real stack histories, views compared before/after every compaction"),
  "C09": dict(level="exploration", design="5/C09",
